@@ -44,3 +44,11 @@ CLAIMS['C10'] = dict(
           '(chunk rows: one per chunk written; chunk table sorted before written). The set algebra of the two-way merge (which records end up in the output) depends on hash '
           'value comparisons and is not decided.'),
     note='Process-stop model for ordering facts: completed system calls persist.')
+CLAIMS['C19'] = dict(
+    technique='static analysis: who-may-create census with provenance of path operands, MIR cut-reachability ordering (flush/close before rename/commit), evaluated name literals',
+    text=('Process-stop model. Decides that a final name only ever appears through rename of a completely written, flushed temporary file: every file-creating call in the shard, '
+          'file-utils and chunk-cache crates and in LocalClient::put gets a temp-derived path (directly or via checked pass-through parameters), flush/close success dominates the '
+          'rename or the in-memory commit, rename sources are the temp files written and hash-named destinations derive from the hash of the written bytes, merged shards are '
+          'written before inputs are deleted, and the final-name pattern cannot match the temp-name literals. These ordering facts hold at every crash point because they hold on every path. '
+          'Durability without fsync and parsing of leftover names beyond the literal check are not decided.'),
+    note='Completed system calls persist; Drop does not run on a process stop.')
